@@ -1,8 +1,8 @@
-(* Driver for the extracted C06 model.  stdin: one history per line, `<id> <op>;<op>;...`; stdout one line
+(* Driver for the extracted C06 model.  argv[1] = re-check mode of InlineCache::set: none | index | full.  stdin: one history per line, `<id> <op>;<op>;...`; stdout one line
    per history: `<id>\t<cached run>\t<uncached run>\t<first irregular-accessor-slot step>`.
    A run is the outputs of its operations joined by `|`, an operation's outputs are blank-separated tokens
    (see checks/c06.py for the token grammar shared with the JavaScript side), `PANIC` ends a run.
-   Ops:  A s|u <p|->   D o k [v=V] [w=B] [g=V] [s=V] [e=B] [c=B]   X o k   P o <p|->   E o   Z o
+   Ops:  B <f> <heap op> (body of accessor function f)   A s|u <p|->   D o k [v=V] [w=B] [g=V] [s=V] [e=B] [c=B]   X o k   P o <p|->   E o   Z o
          G s k o   S s k o V   N s k   M o   V g|s|n s k <keep bits>          V ::= u | n<int> | f<int> *)
 open C06_model
 
@@ -55,6 +55,14 @@ let parse_op (s : string) : op =
       OpEvict (kd, pn s, pn k, List.init (String.length keep) (fun i -> keep.[i] = '1'))
   | _ -> failwith ("bad op: " ^ s)
 
+(* `B <f> <op>`: append <op> to the body of accessor function f *)
+let is_body (s : string) : bool = let t = String.trim s in String.length t > 2 && t.[0] = 'B' && t.[1] = ' '
+let parse_body (s : string) : int * op =
+  let t = String.trim s in
+  let rest = String.sub t 2 (String.length t - 2) in
+  let sp = String.index rest ' ' in
+  (int_of_string (String.sub rest 0 sp), parse_op (String.sub rest (sp + 1) (String.length rest - sp - 1)))
+
 let sval (v : val0) : string =
   match v with VUndef -> "u" | VNum x -> "n" ^ si x | VFun f -> "f" ^ si f
 let b01 b = if b then "1" else "0"
@@ -80,10 +88,13 @@ let sout (o : out) : string =
       "d:x" ^ b01 ext ^ "^" ^ (match proto with Some p -> si p | None -> "-") ^ "[" ^
       String.concat "," (List.map (fun (k, d) -> si k ^ "=" ^ sdesc d) props) ^ "]"
   | OIC evs -> "ic:" ^ String.concat "" (List.map sev evs)
+  | OBadStore -> ""
 let srun (r : out list option list) : string =
   String.concat "|" (List.map (fun x -> match x with
     | Some l -> String.concat " " (List.map sout l)
     | None -> "PANIC") r)
+let mode = if Array.length Sys.argv > 1 then (match Sys.argv.(1) with "none" -> RNone | "full" -> RFull | _ -> RIndex) else RIndex
+
 let () =
   try
     while true do
@@ -93,12 +104,20 @@ let () =
         let sp = String.index line ' ' in
         let id = String.sub line 0 sp in
         let body = String.sub line (sp + 1) (String.length line - sp - 1) in
-        let ops = List.map parse_op (List.filter (fun s -> String.trim s <> "") (String.split_on_char ';' body)) in
-        let rc = run true init ops in
-        let ru = run false init ops in
-        let k = (match first_irregular init ops N0 with
-                 | Some i -> si i ^ ":cached-hit-on-irregular-accessor-slot"
-                 | None -> "-") in
+        let parts = List.filter (fun s -> String.trim s <> "") (String.split_on_char ';' body) in
+        let bodies = List.map parse_body (List.filter is_body parts) in
+        let ops = List.map parse_op (List.filter (fun s -> not (is_body s)) parts) in
+        let nf = List.fold_left (fun m (f, _) -> max m (f + 1)) 0 bodies in
+        let ft = List.init nf (fun f -> List.map snd (List.filter (fun (g, _) -> g = f) bodies)) in
+        let rc = run mode true ft init ops in
+        let ru = run mode false ft init ops in
+        let irr = (match first_irregular mode ft init ops N0 with Some i -> Some (int_of_n i) | None -> None) in
+        let bad = (match first_bad_store rc N0 with Some i -> Some (int_of_n i) | None -> None) in
+        let k = (match irr, bad with
+                 | Some i, Some b when b <= i -> string_of_int b ^ ":cache-store-after-accessor-changed-the-property"
+                 | Some i, _ -> string_of_int i ^ ":cached-hit-on-irregular-accessor-slot"
+                 | None, Some b -> string_of_int b ^ ":cache-store-after-accessor-changed-the-property"
+                 | None, None -> "-") in
         print_string (id ^ "\t" ^ srun rc ^ "\t" ^ srun ru ^ "\t" ^ k ^ "\n")
       end
     done
